@@ -259,6 +259,18 @@ def copyOutSymlink (ps : Path) (dest : Path) (v : J) (p : Path) (t : LinkT) (fs 
       | (some lp, ap) => (.str (renderPath ap), symlinkAt fs dest (.abs lp))
       | (none, ap) => (.str (renderPath ap), symlinkAt fs dest (.rel (relPath dest.dropLast ap)))
 
+/-- `recoverMovedOutFile`: the recorded path holds nothing.  If it lies inside
+the pipestance and its destination already holds a file or directory (not a
+symlink) — an earlier post-process was interrupted between the rename into
+outs/ and leaving the symlink behind — the link is put in place now and the
+destination is reported; otherwise the output is reported as null. -/
+def recoverMoved (ps dest p : Path) (fs : FS) : J × FS :=
+  if !inside ps p then (.null, fs) else
+  match fs.get dest with
+  | some (.file _) => (.str (renderPath dest), symlinkAt fs p (.rel (relPath p.dropLast dest)))
+  | some .dir => (.str (renderPath dest), symlinkAt fs p (.rel (relPath p.dropLast dest)))
+  | _ => (.null, fs)
+
 /-- `moveOutFile` for a non-null value; `name` = `GetOutFilename`. -/
 def moveOutFile (ps outs : Path) (name : String) (v : J) (fs : FS) : J × FS :=
   match v with
@@ -268,7 +280,7 @@ def moveOutFile (ps outs : Path) (name : String) (v : J) (fs : FS) : J × FS :=
     | none => (.null, fs)
     | some p =>
       match fs.get p with
-      | none => (.null, fs)
+      | none => recoverMoved ps (outs ++ [name]) p fs
       | some (.link t) => copyOutSymlink ps (outs ++ [name]) v p t (mkdirAll fs outs)
       | some _ =>
         let dest := outs ++ [name]
@@ -434,6 +446,41 @@ def postMap (da : Bool) (ps : Path) (params : List (String × String × Ty)) (ou
     let r := processStructOuts da ps params x (outs ++ [k]) fs
     let rs := postMap da ps params outs xs r.2
     ((k, r.1) :: rs.1, rs.2)
+
+/-! ## Rewriting the `_outs` record under faults
+
+`Fork.postProcess` ends with one write of the record file.  A crash (kill -9)
+or an I/O fault (ENOSPC, EFBIG, …) can cut that write short after any number
+of steps.  Two kinds of writer exist in `Metadata`:
+* `WriteAtomic` → `writeAtomicAt`: the bytes go to `<target>.tmp`
+  (`writeFileAt`), then `renameat(tmp, target)`;
+* `Write` / `WriteRaw` / `WriteRawBytes`: `os.WriteFile(target)` — truncate,
+  then write in place.
+ASSUMPTION (operating system): `rename(2)` replaces the target atomically, and
+a failed or interrupted `write(2)` leaves a prefix of the data. -/
+
+inductive RecordWriter where
+  | atomic
+  | inplace
+  deriving DecidableEq, Repr
+
+/-- classification of the `Metadata` method named at the write site -/
+def writerOfName (n : String) : Option RecordWriter :=
+  if n = "WriteAtomic" then some .atomic
+  else if n = "Write" ∨ n = "WriteRaw" ∨ n = "WriteRawBytes" ∨ n = "_writeRawNoLock" then some .inplace
+  else none
+
+/-- the steps `WriteAtomic` must consist of for the argument to hold -/
+def atomicSteps : List String := ["writeFileAt:tmp", "renameat:tmp->target"]
+
+/-- Content of the record file when the write is cut after `k` units of
+progress: for the in-place writer, unit 0 is the truncation and unit `i+1` the
+`i`-th byte; for the atomic writer units `0 … len` fill the temp file and the
+last unit is the rename. -/
+def recordAfterFault (w : RecordWriter) (old new : List UInt8) (k : Nat) : List UInt8 :=
+  match w with
+  | .atomic => if new.length + 1 < k then new else old
+  | .inplace => if k = 0 then old else new.take (k - 1)
 
 /-! ## The compile-time duplicate-name check (compile_types.go `StructType.compile`) -/
 
